@@ -1273,7 +1273,12 @@ func init() {
 			"nested claim path (realm.roles): both the path reading and the literal-name reading are admissible",
 		},
 		shards: func(tier string) int { return 16 },
-		run:    c04Run,
-		replay: c04Replay,
+		run:    func(c *Ctx) { concRunFor(c, "C04"); c04Run(c) },
+		replay: func(c *Ctx, raw json.RawMessage) string {
+			if out, ok := concReplayFor(c, "C04", raw); ok {
+				return out
+			}
+			return c04Replay(c, raw)
+		},
 	})
 }
